@@ -15,7 +15,7 @@ rescale_hooks.install()
 
 ID = "C25"
 N = {"quick": 200, "thorough": 6000}
-BUDGET = {"quick": 240.0, "thorough": 1500.0}
+BUDGET = {"quick": 240.0, "thorough": 700.0}
 RULE = ("case = (zoo input, rescaling_intervals 1/2/10/1000, rescaling_iterations 1/5/20, "
         "match_segregating_sites, max_iterations 1..25 (1 leaves reversed branches), max_shape); "
         "distinct by (topology hash, options); non-trivial = a rescale() call was observed end to end")
